@@ -688,7 +688,8 @@ def _hist_op(tag, op, out, last, dev):
             out["status"] = "oversize-accepted"
             return last
         out["data"] = data
-        n.octets = data
+        # documented: bytes or bytearray; both forms are exercised
+        n.octets = bytearray(data) if op["seed"] & 1 else data
         return data
     if name == "format":
         out["result"] = _quiet(tag.format, version=op["version"],
